@@ -204,10 +204,10 @@ type c19Scope struct {
 	sets   map[string][2]int // name -> [offset, end)
 	pIndex map[string]int
 	sIndex map[string]int
-	// failing bits per group (kind x case): rows allocated on first failure
+	// failing bits per group (kind x case x constructor-rule-switched): rows allocated on first failure
 	mu    sync.Mutex
-	wrong [4][][]uint64
-	panic [4][][]uint64
+	wrong [8][][]uint64
+	panic [8][][]uint64
 }
 
 func (s *c19Scope) init() {
@@ -219,7 +219,7 @@ func (s *c19Scope) init() {
 	for i, p := range s.paths {
 		s.sIndex[p] = i
 	}
-	for g := 0; g < 4; g++ {
+	for g := 0; g < 8; g++ {
 		s.wrong[g] = make([][]uint64, len(s.patterns))
 		s.panic[g] = make([][]uint64, len(s.patterns))
 	}
@@ -243,6 +243,7 @@ type c19Ctx struct {
 	failSeen map[string]bool
 	distinct map[string]bool
 	nFailRaw int64
+	nHistory map[string]int
 }
 
 // phase prints progress when VERIF_DEBUG is set.
@@ -643,7 +644,7 @@ func (x *c19Ctx) judgeSet(c *c19Case, o *c19Out, dk map[string]bool) {
 	for l := range seenLen {
 		for w := 0; w < 2; w++ {
 			if seenLen[l][w] {
-				dk[fmt.Sprintf("a|%s|%s|case=%v|plen=%d|slen=%d|want=%v", s.name, ref.kind(), c.Exact, plen, l, w == 1)] = true
+				dk[fmt.Sprintf("a|%s|%s|case=%v|switched=%v|plen=%d|slen=%d|want=%v", s.name, ref.kind(), c.Exact, c.Exact != c.ExactCtor, plen, l, w == 1)] = true
 			}
 		}
 	}
@@ -671,8 +672,8 @@ func c19DropRune(s string) []string {
 // minimalFails turns the failing bits of a scope into fail records, keeping only pairs none of
 // whose single-rune deletions (of pattern or path) fails in the same way.
 func (x *c19Ctx) minimalFails(s *c19Scope) {
-	for g := 0; g < 4; g++ {
-		isRe, exact := g&1 != 0, g&2 != 0
+	for g := 0; g < 8; g++ {
+		isRe, exact, switched := g&1 != 0, g&2 != 0, g&4 != 0
 		for symIdx, rows := range [2][][]uint64{s.wrong[g], s.panic[g]} {
 			sym := []string{"wrong-answer", "panic"}[symIdx]
 			total, minimal := 0, 0
@@ -732,32 +733,32 @@ func (x *c19Ctx) minimalFails(s *c19Scope) {
 						got = "panic"
 					}
 					x.addFail(&c19Fail{API: c19APIName["pattern"], Kind: kind, Symptom: sym, ProbeKind: "pattern", Patterns: []string{pat},
-						CtorExact: exact, HasQuery: true, Path: s.paths[si], Exact: exact, Got: got, Want: c19Bool01(want), Part: "a",
+						CtorExact: exact != switched, HasQuery: true, Path: s.paths[si], Exact: exact, Got: got, Want: c19Bool01(want), Part: "a",
 						Origin: "exhaustive scope " + s.name, Minimal: true})
 				}
 			}
 			if total > 0 {
-				x.rep.Count(fmt.Sprintf("a_%s_%s_kind=%s_case=%v_failing_pairs", s.name, sym, map[bool]string{false: "plain", true: "regexp"}[isRe], exact), total)
-				x.rep.Count(fmt.Sprintf("a_%s_%s_kind=%s_case=%v_minimal_pairs", s.name, sym, map[bool]string{false: "plain", true: "regexp"}[isRe], exact), minimal)
+				x.rep.Count(fmt.Sprintf("a_%s_%s_kind=%s_case=%v_switched=%v_failing_pairs", s.name, sym, map[bool]string{false: "plain", true: "regexp"}[isRe], exact, switched), total)
+				x.rep.Count(fmt.Sprintf("a_%s_%s_kind=%s_case=%v_switched=%v_minimal_pairs", s.name, sym, map[bool]string{false: "plain", true: "regexp"}[isRe], exact, switched), minimal)
 			}
 		}
 	}
 }
 
-// runScope enumerates one scope of part (a): every pattern as plain and as /regexp/, under both
-// case rules (constructor and queries use the same rule), against its path set.
+// runScope enumerates one scope of part (a): every pattern as plain and as /regexp/, queried under
+// both case rules, constructed under the same and under the other rule, against its path set.
 func (x *c19Ctx) runScope(s *c19Scope) {
 	s.init()
 	var cases []*c19Case
-	for g := 0; g < 4; g++ {
-		isRe, exact := g&1 != 0, g&2 != 0
+	for g := 0; g < 8; g++ {
+		isRe, exact, switched := g&1 != 0, g&2 != 0, g&4 != 0
 		for pi, p := range s.patterns {
 			pat := p
 			if isRe {
 				pat = "/" + p + "/"
 			}
 			name, off := s.setFor(p)
-			cases = append(cases, &c19Case{Kind: "pattern", Pattern: pat, ExactCtor: exact, Exact: exact, PathSet: name,
+			cases = append(cases, &c19Case{Kind: "pattern", Pattern: pat, ExactCtor: exact != switched, Exact: exact, PathSet: name,
 				part: "a", row: pi, scope: s, group: g, setOff: off})
 		}
 	}
@@ -872,6 +873,14 @@ func (x *c19Ctx) historyViolation(c *c19Case, so, fo *c19Out, what string) {
 		what = fmt.Sprintf("query %d of the sequence answered %q, the same query on a fresh matcher answered %q", c.seqIdx, so.Ans, fo.Ans)
 	}
 	kind := c19KindOf(c, c19Refs(c, nil))
+	x.mu.Lock()
+	x.nHistory[c19APIName[c.Kind]+"/"+kind]++
+	n := x.nHistory[c19APIName[c.Kind]+"/"+kind]
+	x.mu.Unlock()
+	if n > 3 {
+		x.rep.Count("history_violations_not_stored_individually", 1)
+		return
+	}
 	x.rep.Violate(&core.Violation{Property: "C19", Monitor: "optprobe", Symptom: "history-dependent-answer",
 		Features: map[string]string{"api": c19APIName[c.Kind], "kind": kind},
 		Case:     fmt.Sprintf("seq#%d/%d", seq.ID, c.seqIdx),
@@ -959,6 +968,9 @@ func c19Candidates(st c19State, probeKind string) []c19State {
 	}
 	if st.pattern2 != "" || st.path2 != "" {
 		for _, p := range c19DeleteCandidates(c19Units(st.pattern2), false) {
+			if p == "" {
+				continue // an empty destination means "same as source" to NewNameMatcher
+			}
 			n := st
 			n.pattern2 = p
 			add(n)
@@ -1527,7 +1539,7 @@ func RunC19(e *core.Env) int {
 		rep.Eval(1)
 		return rep.Finish()
 	}
-	x := &c19Ctx{e: e, rep: rep, probe: probe, dir: filepath.Join(e.Work, "c19"), failSeen: map[string]bool{}, distinct: map[string]bool{}}
+	x := &c19Ctx{e: e, rep: rep, probe: probe, dir: filepath.Join(e.Work, "c19"), failSeen: map[string]bool{}, distinct: map[string]bool{}, nHistory: map[string]int{}}
 	_ = os.MkdirAll(x.dir, 0o755)
 	thorough := e.Tier == "thorough"
 
